@@ -9,15 +9,26 @@ from pyvc.vc import contract, bounded
 
 @bounded("C19", "estimators_native", native_runs=26)
 def estimators_native(vc):
+    _estimators(vc)
+
+
+@bounded("C19", "unimodal_large_sample_native", native_runs=5)
+def unimodal_large_sample_native(vc):
+    """the same clauses for the configuration the random draw reaches least often: UnimodalPdf on 6000 points (it fits a
+    sub-sample first and then re-fits on the whole sample: everything reported must belong to the final fit)"""
+    _estimators(vc, est="unimodal", n=6000)
+
+
+def _estimators(vc, est=None, n=None):
     from inference.pdf import GaussianKDE, UnimodalPdf
     from scipy.integrate import quad
     seed = vc.int("seed", lo=0, hi=10 ** 6)
     rng = np.random.default_rng(seed)
-    est = vc.choice("estimator", ["kde", "unimodal"])
+    est = est or vc.choice("estimator", ["kde", "unimodal"])
     fam = vc.choice("family", ["normal", "skew", "logistic", "left_skew", "laplace", "exponential"])
     if fam == "exponential" and est == "unimodal":
         fam = "skew"          # (a density with a jump at its mode is outside the unimodal model's family)
-    n = vc.choice("n", [300, 3000, 6000])          # (UnimodalPdf fits a sub-sample first when n >= 4000)
+    n = n or vc.choice("n", [300, 3000, 6000])          # (UnimodalPdf fits a sub-sample first when n >= 4000)
     scale = 10 ** vc.choice("log10_scale", [-6, 0, 3, 6])
     loc = vc.choice("location_in_sigmas", [0.0, 30.0, 1e4, 1e6]) * scale
     base = {"normal": lambda: rng.normal(size=n), "skew": lambda: rng.gamma(4.0, size=n) / 2.0,
@@ -63,12 +74,21 @@ def estimators_native(vc):
     vc.ensures("mode_is_a_local_maximum_of_the_density", float(E(E.mode)) >= float(np.max(E(near))) * (1 - 1e-6) - slack
                and float(E(E.mode)) >= pg.max() * 0.8)
     vc.ensures(f"{est}.mode_is_the_global_maximum", float(E(E.mode)) >= pg.max() * (1 - 2e-3))
-    for f in (0.3, 0.68, 0.95, 0.5 / n, 0.01):          # (also fractions smaller than one sample's worth)
+    Fg = np.asarray(E.cdf(grid))
+    for f in (0.3, 0.68, 0.95, 0.5 / n, 0.01, 0.003):          # (also fractions smaller than one sample's worth)
         a, b = E.interval(f)
         Fa, Fb = np.asarray(E.cdf(np.array([a, b])))
         Pa, Pb = np.asarray(E(np.array([a, b])))
         vc.ensures("interval_holds_requested_probability", abs((Fb - Fa) - f) < min(5e-3, 0.1 * f))
         vc.ensures("interval_ends_have_equal_density", abs(Pa - Pb) < 0.02 * pg.max())
+        # a highest-density interval is the SHORTEST one holding that probability: nowhere near e.g. a whole tail (reference:
+        # the shortest window of the estimator's own cdf on the grid; only gross excess is an error here -- a factor 2)
+        j = np.searchsorted(Fg, Fg + f)
+        ok_ = j < grid.size
+        if f * n >= 0.5 and np.any(ok_) and (grid[1] - grid[0]) < 0.05 * (b - a):
+            shortest = float(np.min(grid[j[ok_]] - grid[ok_]))
+            vc.inputs[f"interval_length_over_shortest_{f:.4g}"] = float((b - a) / shortest)
+            vc.ensures("interval_is_not_grossly_longer_than_the_shortest_one", (b - a) <= 2.0 * shortest)
     # moments of the estimated density itself (premise: negligible mass outside the estimator's own range)
     mu, var, skw, kur = E.moments()
     if est == "kde":
@@ -114,3 +134,85 @@ contract("C19", "kde_region_lookup", native=False, replay_with="kde_exact_sums_n
 contract("C19", "kde_density_evaluation", native=False, replay_with="kde_exact_sums_native")(_kd)
 contract("C19", "kde_cdf_evaluation", native=False, replay_with="kde_exact_sums_native")(_kcdf)
 contract("C19", "kde_truncation_theorem", native=False, replay_with="kde_exact_sums_native")(_kt)
+
+
+# ---- proof layer for the moment formulas ---------------------------------------------------------------------------------
+# moments() of both estimators is straight-line code around the estimator's own density and scipy's Simpson rule.  With the
+# density an arbitrary function P (ghost) and the Simpson rule an arbitrary linear functional sum_i w_i y_i on the grid (assumed),
+# the four returned numbers must be the mean, variance, skewness and EXCESS kurtosis of the weights w_i P(x_i) on the grid that
+# spans the estimator's own integration range -- for every grid size, range and density.
+from pyvc import sym as S
+from pyvc.sym import Sym
+from pyvc.tensor import Tensor
+
+
+def _moments_contract(vc, cls_module, cls_name, fields, lo_hi):
+    import z3
+    from pyvc.npmodel import simpson_weights
+    P = z3.Function("density", z3.RealSort(), z3.RealSort())
+    grids = []
+
+    def density(I, func, args, kwargs):
+        x = args[1]
+        grids.append(x)
+        fz = x.frozen()
+        return Tensor(x.shape, lambda i: Sym(P(S.z(S.to_real(S.z(fz.at(i)))))))
+
+    vc.modular(f"{cls_name}.__call__", density)
+    est = vc.obj(cls_module, cls_name, **fields)
+    mu, var, skw, kur = vc.call(est, "moments")
+    vc.ensures("density_evaluated_on_one_grid", len(grids) == 1)
+    if len(grids) != 1:
+        return
+    x = grids[0]
+    n = x.shape[0]
+    lo, hi = lo_hi
+    vc.ensures_forall("grid_spans_the_integration_range", n,
+                      lambda i: S.cmp("==", x.at(i), S.add(lo, S.div(S.mul(S.sub(hi, lo), i), S.sub(n, 1)))))
+    W = simpson_weights(x)
+    mode = fields["mode"]
+    p = lambda i: Sym(P(S.z(S.to_real(S.z(x.at(i))))))
+    # (the estimated density integrates to one under the quadrature -- the normalisation clause of the property, decided in the
+    # bounded layer; with it the first moment may be taken about any origin, e.g. the mode)
+    vc.assume(S.cmp("==", vc.sum(n, lambda i: W(i) * p(i)), 1))
+    m1 = vc.sum(n, lambda i: W(i) * (p(i) * x.at(i)))
+    vc.ensures("mean_is_first_moment_of_the_density", S.cmp("==", mu, m1))
+    dx = lambda i: x.at(i) - mu
+
+    def c(i, k):            # w_i P(x_i) (x_i - mu)^k, written as a product of k factors
+        t = p(i) * dx(i) ** 2
+        for _ in range(k - 2):
+            t = t * dx(i)
+        return W(i) * t
+    v2 = vc.sum(n, lambda i: c(i, 2))
+    vc.ensures("variance_is_second_central_moment", S.cmp("==", var, v2))
+    s3, s4 = vc.sum(n, lambda i: c(i, 3)), vc.sum(n, lambda i: c(i, 4))
+    vc.ensures("skewness_is_third_central_moment_over_variance_to_three_halves", S.cmp("==", skw, s3 / var ** 1.5))
+    vc.ensures("kurtosis_is_fourth_central_moment_over_variance_squared_minus_three", S.cmp("==", kur, s4 / var ** 2 - 3.0))
+
+
+@contract("C19", "kde_moments", native=False, replay_with="estimators_native")
+def kde_moments(vc):
+    lo = vc.real("lwr_limit")
+    w = vc.real("range", pos=True)
+    h = vc.real("h", pos=True)
+    mode = vc.real("mode")
+    # class invariant (C12.construction): the integration range is the sample range plus two bandwidths on either side
+    vc.assume(S.cmp(">=", w, 4 * h))
+    _moments_contract(vc, "inference.pdf.kde", "GaussianKDE", dict(lwr_limit=lo, upr_limit=lo + w, h=h, mode=mode), (lo, lo + w))
+
+
+@contract("C19", "unimodal_moments", native=False, replay_with="estimators_native")
+def unimodal_moments(vc):
+    """the same for UnimodalPdf: grid of 1000 points from mode - 5 max(exp(-f), 1) s to mode + 5 max(exp(f), 1) s"""
+    from pyvc.tensor import from_nested
+    x0, s0, f = vc.real("x0"), vc.real("s0", pos=True), vc.real("f")
+    mode = vc.real("mode")
+    MAP = from_nested([x0, s0, vc.real("ln_v"), f, vc.real("k", pos=True), vc.real("q", pos=True)])
+    lo = mode - 5 * _max1(vc, vc.exp(-f)) * s0
+    hi = mode + 5 * _max1(vc, vc.exp(f)) * s0
+    _moments_contract(vc, "inference.pdf.unimodal", "UnimodalPdf", dict(MAP=MAP, mode=mode), (lo, hi))
+
+
+def _max1(vc, e):
+    return S.ite(S.cmp(">=", e, 1.0), e, 1.0)
